@@ -34,44 +34,49 @@ Init == l = 1
 Next == l < N /\ l' = l + 1
 Spec == Init /\ [][Next]_l
 
-S    == Load(Trace[l].state)
-R    == LET t == Trace[l] IN
-        [pre |-> Load(Trace[t.parent].state), act |-> LoadAct(t.act), ok |-> t.ok, post |-> Load(t.state),
-         events |-> t.events, signers |-> t.signers, genesisOK |-> t.genesisOK, digests |-> t.digests]
 IsStep == l > 1
 
-Pre  == Load(Trace[Trace[l].parent].state)
 J(pid, name, cond) == IF pid \notin Which \/ cond THEN TRUE ELSE PrintT(<<"FAIL", pid, name, l>>)
-\* a state invariant is reported at the step that breaks it (not again at every later state of that branch)
-JS(pid, name, P(_)) == pid \in Which => J(pid, name, P(S) \/ (IsStep /\ ~P(Pre)))
 
-JC01 == /\ JS("C01", "Conservation", Conservation)
-        /\ IsStep => J("C01", "CoinsMoveOnlyViaEscrow", CoinsMoveOnlyViaEscrow(R))
-JC02 == /\ JS("C02", "NonNegative", NonNegative)
-        /\ JS("C02", "TransferredMatchesCredits", TransferredMatchesCredits)
-        /\ JS("C02", "MeteringExact", MeteringExact)
-        /\ IsStep => /\ J("C02", "StepNoOvercharge", StepNoOvercharge(R))
-                     /\ J("C02", "NeverTransfersMoreThanDeposited", NeverTransfersMoreThanDeposited(R))
-                     /\ J("C02", "OverdraftDistribution", OverdraftDistribution(R))
-JC03 == /\ JS("C03", "EscrowConsistent", EscrowConsistent)
-        /\ JS("C03", "GenesisValid", GenesisValid)
-        /\ J("C03", "RealValidateGenesis", Trace[l].genesisOK \/ (IsStep /\ ~Trace[Trace[l].parent].genesisOK))
-        /\ JS("C03", "NothingOpenNoCoins", NothingOpenNoCoins)
-        /\ IsStep => /\ J("C03", "ClosedNeverChanges", ClosedNeverChanges(R))
-                     /\ J("C03", "CloseTakesEffect", CloseTakesEffect(R))
-JC04 == JS("C04", "MarketConsistent", MarketConsistent)
-JC05 == JS("C05", "MoneyFollowsLifecycle", MoneyFollowsLifecycle)
-JC06 == IsStep => /\ J("C06", "FrameOK", FrameOK(R))
-                  /\ J("C06", "SignerOK", SignerOK(R))
-JC07 == IsStep => J("C07", "Deterministic", Deterministic(R))
-JC08 == IsStep => /\ J("C08", "BidAdmission", BidAdmission(R))
-                  /\ J("C08", "UpdateGuard", UpdateGuard(R))
-JC16 == IsStep => J("C16", "EventsMatchDiff", EventsMatchDiff(R))
-
-\* conformance: the recorded step is the step the specification's action produces
-Conf == ("CONF" \in Which /\ IsStep) =>
-          LET r == R  ap == Apply(r.pre, r.act) IN
-          IF ap.S = r.post /\ ap.ok = r.ok THEN TRUE ELSE PrintT(<<"DRIFT", l, r.act.act, ap.ok, r.ok>>)
+(* One judgement per line.  s = recorded post-state, pre = recorded pre-state, r = the step record; they are      *)
+(* LET-bound so that TLC converts each recorded state once per line.  A state invariant is reported at the step *)
+(* that breaks it (P(s) \/ ~P(pre)), not again at every later state of that branch.                              *)
+Judge ==
+  LET t   == Trace[l]
+      s   == Load(t.state)
+      pre == IF IsStep THEN Load(Trace[t.parent].state) ELSE s
+      gpre == IF IsStep THEN Trace[t.parent].genesisOK ELSE TRUE
+      r   == [pre |-> pre, act |-> LoadAct(t.act), ok |-> t.ok, post |-> s, events |-> t.events, signers |-> t.signers,
+              genesisOK |-> t.genesisOK, digests |-> t.digests]
+      JS(pid, name, P(_)) == pid \in Which => J(pid, name, P(s) \/ (IsStep /\ ~P(pre)))
+  IN
+  /\ JS("C01", "Conservation", Conservation)
+  /\ JS("C02", "NonNegative", NonNegative)
+  /\ JS("C02", "TransferredMatchesCredits", TransferredMatchesCredits)
+  /\ JS("C02", "MeteringExact", MeteringExact)
+  /\ JS("C03", "EscrowConsistent", EscrowConsistent)
+  /\ JS("C03", "GenesisValid", GenesisValid)
+  /\ J("C03", "RealValidateGenesis", t.genesisOK \/ ~gpre)
+  /\ JS("C03", "NothingOpenNoCoins", NothingOpenNoCoins)
+  /\ JS("C04", "MarketConsistent", MarketConsistent)
+  /\ JS("C05", "MoneyFollowsLifecycle", MoneyFollowsLifecycle)
+  /\ IsStep =>
+       /\ J("C01", "CoinsMoveOnlyViaEscrow", CoinsMoveOnlyViaEscrow(r))
+       /\ J("C02", "StepNoOvercharge", StepNoOvercharge(r))
+       /\ J("C02", "NeverTransfersMoreThanDeposited", NeverTransfersMoreThanDeposited(r))
+       /\ J("C02", "OverdraftDistribution", OverdraftDistribution(r))
+       /\ J("C03", "ClosedNeverChanges", ClosedNeverChanges(r))
+       /\ J("C03", "CloseTakesEffect", CloseTakesEffect(r))
+       /\ J("C06", "FrameOK", FrameOK(r))
+       /\ J("C06", "SignerOK", SignerOK(r))
+       /\ J("C07", "Deterministic", Deterministic(r))
+       /\ J("C08", "BidAdmission", BidAdmission(r))
+       /\ J("C08", "UpdateGuard", UpdateGuard(r))
+       /\ J("C16", "EventsMatchDiff", EventsMatchDiff(r))
+       \* conformance: the recorded step is the step the specification's action produces (drift is not an alarm)
+       /\ "CONF" \in Which =>
+            LET ap == Apply(r.pre, r.act) IN
+            IF ap.S = r.post /\ ap.ok = r.ok THEN TRUE ELSE PrintT(<<"DRIFT", l, r.act.act, ap.ok, r.ok>>)
 
 \* every line was consumed
 Accepted == TLCGet("stats").diameter = N
